@@ -12,6 +12,8 @@ def programs(tier, seed):
         yield from families2.all_core(tier)
         import families3
         yield from families3.g_deep(tier)
+        import families4
+        yield from families4.g_wave4(tier)
         yield from families3.g_guarded(tier)        # (relational only: the pool contains statements with known C01 defects)
     except ImportError:
         pass
